@@ -1221,7 +1221,8 @@ theorem call_safe_ref (prev : St) (hp : cfg.keepPlus = true → prev.plus = fals
       rw [h1] at he hr
       exact absurd hw (finish_safe cfg hc s1 p1 hr e he w)
   intro e he w hw
-  unfold call at he
+  rw [call_ref] at he
+  unfold callWith at he
   simp only [] at he
   split at he
   · exact absurd hw (finish_safe cfg hc _ _ hI e he w)
@@ -1456,7 +1457,8 @@ theorem call_noHang_ref (prev : St) (chunks : List Bytes) (e : Err)
     cases h1 : runChunks refTables cfg (prev.entry cfg) {} cs with
     | error e' => rw [h1] at he; cases he; exact runChunks_noHang cfg hc cs _ _ _ h1
     | ok x => obtain ⟨s1, p1⟩ := x; rw [h1] at he; exact finish_noHang cfg hc s1 p1 e he
-  unfold call at h
+  rw [call_ref] at h
+  unfold callWith at h
   simp only [] at h
   split at h
   · exact finish_noHang cfg hc _ _ e h
